@@ -132,6 +132,9 @@ def run_episode(args):
             res["deliveries"] = w.deliveries_checked
             res["snapshots"] = w.snapshots
             res["tail"] = w.history[-8:]
+            if profile.get("keep_actions"):
+                res["actions"] = w.actions
+                res["variant"] = var
             res["noise"] = dict(w.noise_kinds)
             if w.violations or res["inconclusive"]:
                 res["history"] = w.history[-400:]
